@@ -16,11 +16,13 @@ from ..refs import tlv as T
 from ..sim import net
 
 PROPERTY_ID = 'C07'
-RULE = ('Inputs for five decoders (parse_interest, parse_data, parse_lp_packet_v2, parse_certificate, Name.from_bytes): uniformly '
+RULE = ('Inputs for the decoders parse_interest, parse_data, parse_lp_packet_v2, parse_certificate, Name.from_bytes, plus the legacy '
+        'parse_lp_packet / parse_network_nack and all three link-layer decoders in their with_tl=False form on the bare value: uniformly '
         'random bytes, random bytes behind a correct outer type/length, grammar-generated packets from the spec field tables (every '
         'optional-field subset, unknown non-critical elements sprinkled in, nested SignatureInfo/KeyLocator/ValidityPeriod/'
         'descriptions/forwarding hints) encoded by the independent encoder, and 1..2 byte-level or TLV-structural mutations of those; '
-        'thorough tier also enumerates every single-edit mutation of fixed seed packets. Oracle: (1) exception class in the '
+        'thorough tier also enumerates every single-edit mutation of fixed seed packets; sub-check sequences decodes 2..8 inputs one '
+        'after the other in one process and then fixed canary packets (a decoder is a function of the bytes alone). Oracle: (1) exception class in the '
         'documented decoding errors; (2) library accepts => strict reader accepts (name present, nesting, integer widths, critical '
         'fields once and in order); (3) canonical well-formed inputs must be accepted; (4) both accept => every extracted field '
         'equal; (5) executed-line count <= 5000 + 60*len(input) (sys.monitoring, no wall clock). Non-trivial = outer framing valid '
